@@ -2,8 +2,9 @@
 
 (a) TLC model-checks spec/Slots.tla: every permutation of the set-derived slot lists, wiring by name, same behaviour.
 (b) Programs: C05 families CL / HO / EO, the families of spec/C15.tla (CO capture order, FF failing programs, FV bystanders,
-    TX text-compiling built-ins, PK computed property keys with the expected value prescribed by the specification) - all
-    enumerated by TLC, with the histories HF / HT / HK -, seeded closure-heavy and general random programs, and the corpus
+    TX text-compiling built-ins, PK computed property keys with the expected value prescribed by the specification, EN
+    enumeration order of own properties (sequences of data / accessor properties), EV run-time compile sites x names the
+    compiler invents) - all enumerated by TLC, with the histories HF / HT / HK / HE -, seeded closure-heavy and general random programs, and the corpus
     scripts of /repo/tests/basic and /repo/tests/compat.  Every program runs under PYTHONHASHSEED = 0..N-1 in separate
     processes, in shuffled batches inside one process (each batch twice: back to back, and with virtual time beyond every
     time limit passing between two evaluations), and in the histories spec/C15.tla enumerates (a failing program in every
@@ -88,14 +89,14 @@ def run(rep):
     if "LayoutIndependent" not in bad.violated:
         raise Machinery("Slots self-test: index-based wiring was not rejected (%s)" % (bad.violated or bad.errors[:2]))
     rep.notes["slots_selftest"] = "index-based wiring violates LayoutIndependent after %d states" % bad.distinct
-    rep.add_tlc("C15.enum_own (families CO / WS / FF / FV / TX / PK and the histories; MiniJS invariants on every state of every program in the fragment)", own)
+    rep.add_tlc("C15.enum_own (families CO / WS / FF / FV / TX / PK / EN / EV and the histories; MiniJS invariants on every state of every program in the fragment)", own)
     own_progs, hists = own_space(rep, own)
     nfam = {}
     for p in own_progs:
         nfam[p["fam"]] = nfam.get(p["fam"], 0) + 1
     for h in hists:
         nfam[h["fam"]] = nfam.get(h["fam"], 0) + 1
-    for f in ("CO", "WS", "FF", "FV", "TX", "PK", "HF", "HT", "HK"):
+    for f in ("CO", "WS", "FF", "FV", "TX", "PK", "EN", "EV", "HF", "HT", "HK", "HE"):
         if not nfam.get(f):
             raise Machinery("enumeration of spec/C15.tla produced no %s item" % f)
     rep.spaces.append({"space": "C15 families (TLC-enumerated): " + ", ".join("%s=%d" % kv for kv in sorted(nfam.items())),
@@ -131,7 +132,7 @@ def run(rep):
         return r["out"].get("o") == "hang" and "wall" in str(r["out"].get("why", ""))
 
     # the families whose subject is the history (FF / FV / TX) run under the first 16 hash seeds only
-    hist_fams = {it["id"] for it in items if it["fam"] in ("FF", "FV", "TX", "PK")}
+    hist_fams = {it["id"] for it in items if it["fam"] in ("FF", "FV", "TX", "PK", "EN", "EV")}
     cases16 = cases if nseeds <= 16 else [c for c in cases if c["id"] not in hist_fams]
 
     def one_seed(seed):
